@@ -197,3 +197,25 @@ def split_responses(x):
 def tokb(t):
     r = take(t + b" ")
     return r is not None and r[0] == t and len(t) > 0
+
+
+def is_quoted_strict(v):
+    """v is exactly ONE quoted string: opening quote, escapes only of quote and
+    backslash, no bare quote / CR / LF inside, closing quote is the last octet"""
+    if len(v) < 2 or v[0] != DQ:
+        return False
+    i = 1
+    n = len(v)
+    while i < n:
+        c = v[i]
+        if c == BSL:
+            if i + 1 >= n or v[i + 1] not in (DQ, BSL):
+                return False
+            i += 2
+            continue
+        if c == DQ:
+            return i == n - 1
+        if c in (CR, LF):
+            return False
+        i += 1
+    return False
